@@ -24,7 +24,10 @@ META = {
             "and float-tie-laden boxes, all three axes, maxpair cuts) and mj_broadphase (on generated scenes). Only observed, not proved: "
             "mj_collideTree / mj_collideOBB mid-phase, bounding-sphere filter, the explicit-pair merge loop of mj_collision, makeAAMM "
             "(covered by the brute-force oracle: contact pair set == documented filters + narrow phase on every geom pair, under "
-            "FILTERPARENT/MIDPHASE/CONTACT/CONSTRAINT disable flags and margin override; contact order repeatability). Not covered: flex, "
+            "FILTERPARENT/MIDPHASE/CONTACT/CONSTRAINT disable flags and margin override; contact order repeatability; the oracle and the "
+            "broadphase model inputs take weld groups, their parents and dof counts from body_parentid / body_jntnum / mocap, not from the "
+            "implementation's body_weldid; dedicated chain scenes put jointless bodies on jointed links and on the world with geoms "
+            "overlapping the weld group one joint up, parent filter on and off). Not covered: flex, "
             "mesh/hfield/SDF geoms, sleeping (mjENBL_SLEEP), NaN coordinates, IEEE rounding beyond the monotone-map abstraction.",
     "note": "Trusted: Coq kernel; hand-written model Model/Broadphase.v (arrays as lists, float cast as an abstract monotone map, "
             "C ints as Z); correspondence harness (gcc, driver c14_bp.c which #includes engine_collision_driver.c; Python float32 rounding "
@@ -120,7 +123,8 @@ def parse_scene(lines):
                                 margin=float.fromhex(t[6]), gap=float.fromhex(t[7])))
         elif t[0] == "B":
             v = list(map(int, t[1:]))
-            sc["B"].append(dict(weld=v[1], pweld=v[2], dof=v[3], mocap=v[4], geomnum=v[5], geomadr=v[6], bvh=v[7], ct=v[8], ca=v[9]))
+            sc["B"].append(dict(weld_impl=v[1], pweld_impl=v[2], dof_impl=v[3], mocap=v[4], geomnum=v[5], geomadr=v[6], bvh=v[7], ct=v[8], ca=v[9],
+                                parent=v[10], jntnum=v[11], dof_own=v[12]))
         elif t[0] == "P":
             sc["P"].append(dict(g1=int(t[2]), g2=int(t[3]), sig=int(t[4])))
         elif t[0] == "X":
@@ -142,7 +146,18 @@ def parse_scene(lines):
             sc["S"] = (int(t[1]), [tuple(map(int, p.split(":"))) for p in t[2:]])
         elif t[0] == "BF":
             sc["BF"] = list(map(int, t[2:]))
+    weld_groups(sc["B"])
     return sc
+
+
+def weld_groups(B):
+    """weld group, weld group of the group's parent and dof count of the group, computed from body_parentid / body_jntnum / mocap only
+    (not from the implementation's body_weldid): a body with a joint or a mocap body starts a group, a jointless body joins its parent's"""
+    for b, r in enumerate(B):
+        r["weld"] = b if (b == 0 or r["jntnum"] > 0 or r["mocap"]) else B[r["parent"]]["weld"]
+    for r in B:
+        r["pweld"] = B[B[r["weld"]]["parent"]]["weld"]
+        r["dof"] = B[r["weld"]]["dof_own"]
 
 
 def sig(b1, b2):
@@ -180,6 +195,27 @@ def expected_pairs(sc, dsbl):
             continue
         exp[key] = ("dynamic", n)
     return set(exp), exp
+
+
+def reject_reason(sc, dsbl, g1, g2):
+    """which documented rule rejects the (dynamic) geom pair"""
+    G, B = sc["G"], sc["B"]
+    b1, b2 = G[g1]["body"], G[g2]["body"]
+    w1, w2 = B[b1]["weld"], B[b2]["weld"]
+    info = {"geoms": (g1, g2), "bodies": (b1, b2), "weld_groups": (w1, w2), "weld_parents": (B[b1]["pweld"], B[b2]["pweld"])}
+    if w1 == w2:
+        info["rule"] = "same weld group"
+    elif B[b1]["dof"] == 0 and B[b2]["dof"] == 0:
+        info["rule"] = "both without degrees of freedom"
+    elif not (dsbl & DSBL["FILTERPARENT"]) and w1 != 0 and w2 != 0 and (w1 == B[b2]["pweld"] or w2 == B[b1]["pweld"]):
+        info["rule"] = "parent-child of weld groups (mjDSBL_FILTERPARENT not set)"
+    elif sig(b1, b2) in set(sc["X"]):
+        info["rule"] = "exclude element"
+    elif not ((G[g1]["ct"] & G[g2]["ca"]) or (G[g2]["ct"] & G[g1]["ca"])):
+        info["rule"] = "contype/conaffinity incompatible"
+    else:
+        info["rule"] = "narrow phase reports no contact / explicit pair"
+    return info
 
 
 def run(ctx):
@@ -273,6 +309,12 @@ def run(ctx):
         vs = [variants[0]] + rng.sample(variants[1:], 2)
         for (ds, en, om) in vs:
             cmds.append(("SCENE", (seed, nb, ds, en, om)))
+    # chain scenes (nb = 0): jointless tool bodies welded to jointed links / to the world, geoms overlapping the weld group one joint up;
+    # parent filter on and off
+    for i in range(12 if quick else 300):
+        seed = rng.randrange(1, 1 << 40)
+        for (ds, en, om) in (variants[0], variants[1]) + ((variants[2],) if i % 3 == 0 else ()):
+            cmds.append(("SCENE", (seed, 0, ds, en, om)))
     # ---- end-to-end float-tie replays (design probe): x0, penetration, declaration order
     ties = [(0.0, 1e-8, 0), (0.0, 1e-8, 1), (1000.0, 1e-5, 0), (1000.0, 1e-5, 1), (0.0, 1e-3, 0), (0.0, 1e-3, 1)]
     for t in ties:
@@ -391,7 +433,8 @@ def run(ctx):
         elif k == "SCENE":
             seed, nb, ds, en, om = p
             sc = parse_scene(o)
-            case = {"op": "scene", "seed": seed, "nbody": nb, "disableflags": ds, "enableflags": en, "o_margin": om}
+            case = {"op": "scene" if nb > 0 else "chain scene (jointless bodies welded to links / world)", "seed": seed, "nbody": nb,
+                    "disableflags": ds, "enableflags": en, "o_margin": om}
             if not sc["ok"] or "BF" not in sc:
                 ctx.broken.append(("correspondence", "scene did not run", "%s -> %s" % (text(c), " | ".join(o)[:400]))); continue
             obs = [frozenset(pr) for pr in sc["C"]]
@@ -411,7 +454,8 @@ def run(ctx):
                               theorem="oracle: brute-force all pairs", signature={"site": "mj_collision", "class": cls,
                                                                                    "override": bool(en & ENBL_OVERRIDE)})
             if extra:
-                ctx.violation("impl_violation", dict(case, unexpected=extra[:5]), expected="no contact for pairs rejected by the documented filters",
+                ctx.violation("impl_violation", dict(case, unexpected=extra[:5], rejected_by=[reject_reason(sc, ds, a, b) for a, b in extra[:3]]),
+                              expected="no contact for pairs rejected by the documented filters",
                               observed=sc["C"][:40], theorem="oracle: brute-force all pairs",
                               signature={"site": "mj_collision", "class": "pair_unexpected"})
             # per-pair contact counts, contiguity, type order
@@ -506,9 +550,14 @@ def run(ctx):
             ("c14_sap", sap_cases, sap_src, chk_sap), ("c14_bp", bp_cases, bp_src, chk_bp),
             ("c14_fbpx", [F.zlist(fbpx_res)], None, "fun res => zlist_eqb (%s) res" % body)]
     from concurrent.futures import ThreadPoolExecutor
+    import os, shutil
+    sfx = "_p%d" % os.getpid()      # private evaluation directories: concurrent runs of this check do not clear each other's files
     with ThreadPoolExecutor(max_workers=len(jobs)) as ex:
-        results = list(ex.map(lambda j: ctx.coq_eval(j[0], IMPORTS, j[1], j[3], shard={"c14_sap": 120 if quick else 150, "c14_bp": 30}.get(j[0], 1000)), jobs))
+        results = list(ex.map(lambda j: ctx.coq_eval(j[0] + sfx, IMPORTS, j[1], j[3], shard={"c14_sap": 120 if quick else 150, "c14_bp": 30}.get(j[0], 1000)), jobs))
     tm["coq_eval"] = round(time.time() - t0, 1)
+    if not ctx.broken:
+        for j in jobs:
+            shutil.rmtree(os.path.join(ctx.scratch, "eval_" + j[0] + sfx), ignore_errors=True)
     for (name, cases, src, chk), fails in zip(jobs, results):
         nfail += len(fails)
         if name == "c14_fbpx":
